@@ -3,7 +3,7 @@ import verdictcheck
 
 
 def run(ctx):
-    ctx.rule = ("TLC enumerates every bag of <= MaxBag rules of a 25-rule pool covering exception x important x $domain-specific x "
+    ctx.rule = ("TLC enumerates every bag of <= MaxBag rules of a 27-rule pool covering exception x important x $domain-specific x "
                 "document-level modifiers x $dnsrewrite x $badfilter twins x $stealth, with every set of <= MaxSrc referrer rules "
                 "of an 11-rule pool; Verdict.tla gives class and admissible winners; the harness replays ALL permutations through "
                 "NewMatchingResult/GetDNSBasicRule and seeded permutations x splits into 1-3 lists through Engine, NetworkEngine "
